@@ -2289,22 +2289,7 @@ func (rl *clientConnReadLoop) processData(f *DataFrame) error {
 		// by the peer? Tough without accumulating too much state.
 
 		// But at least return their flow control:
-		if f.Length > 0 {
-			cc.mu.Lock()
-			ok := cc.inflow.take(f.Length)
-			connAdd := cc.inflow.add(int(f.Length))
-			cc.mu.Unlock()
-			if !ok {
-				return ConnectionError(ErrCodeFlowControl)
-			}
-			if connAdd > 0 {
-				cc.wmu.Lock()
-				cc.fr.WriteWindowUpdate(0, uint32(connAdd))
-				cc.bw.Flush()
-				cc.wmu.Unlock()
-			}
-		}
-		return nil
+		return rl.discardData(f)
 	}
 	if cs.readClosed {
 		cc.logf("protocol error: received DATA after END_STREAM")
@@ -2312,7 +2297,7 @@ func (rl *clientConnReadLoop) processData(f *DataFrame) error {
 			StreamID: f.StreamID,
 			Code:     ErrCodeProtocol,
 		})
-		return nil
+		return rl.discardData(f)
 	}
 	if !cs.pastHeaders {
 		cc.logf("protocol error: received DATA before a HEADERS frame")
@@ -2320,7 +2305,7 @@ func (rl *clientConnReadLoop) processData(f *DataFrame) error {
 			StreamID: f.StreamID,
 			Code:     ErrCodeProtocol,
 		})
-		return nil
+		return rl.discardData(f)
 	}
 	if f.Length > 0 {
 		if cs.isHead && len(data) > 0 {
@@ -2329,7 +2314,7 @@ func (rl *clientConnReadLoop) processData(f *DataFrame) error {
 				StreamID: f.StreamID,
 				Code:     ErrCodeProtocol,
 			})
-			return nil
+			return rl.discardData(f)
 		}
 		// Check connection-level flow control.
 		cc.mu.Lock()
@@ -2382,6 +2367,31 @@ func (rl *clientConnReadLoop) processData(f *DataFrame) error {
 
 	if f.StreamEnded() {
 		rl.endStream(cs)
+	}
+	return nil
+}
+
+// discardData accounts for a DATA frame that is not delivered to any
+// response body: the frame still counts against the connection-level
+// flow control window (RFC 9113, Section 6.9), and since nothing will
+// ever read it, its credit is returned to the peer right away.
+func (rl *clientConnReadLoop) discardData(f *DataFrame) error {
+	cc := rl.cc
+	if f.Length == 0 {
+		return nil
+	}
+	cc.mu.Lock()
+	ok := cc.inflow.take(f.Length)
+	connAdd := cc.inflow.add(int(f.Length))
+	cc.mu.Unlock()
+	if !ok {
+		return ConnectionError(ErrCodeFlowControl)
+	}
+	if connAdd > 0 {
+		cc.wmu.Lock()
+		cc.fr.WriteWindowUpdate(0, uint32(connAdd))
+		cc.bw.Flush()
+		cc.wmu.Unlock()
 	}
 	return nil
 }
